@@ -315,3 +315,18 @@ def inline_unsafe_substitution(job: dict, cres: dict, v: dict) -> bool:
                     if var.ast_type == ASTType.Variable and noninvertible(term):
                         return True
     return False
+
+
+@matcher("domain_through_negation")
+def domain_through_negation(job: dict, cres: dict, v: dict) -> bool:
+    """the culprit stage emitted a domain rule `__dom_p(..) :- .., not __dom_q(..)` (or with a conditional literal over
+    `__dom_q`): the negated/conditional literal over a choice-dependent predicate was replaced by its domain predicate,
+    which makes the 'domain' smaller than the real extension of p"""
+    _, added = removed_added(v)
+    text = cres.get("result_text") or ""
+    rules = [s for s in added if s.startswith("__dom_")] or [s for s in text.split("\n") if s.startswith("__dom_")]
+    for rule in rules:
+        head, _, body = rule.partition(":-")
+        if re.search(r"not\s+(not\s+)?__dom_", body) or re.search(r":\s*__dom_|__dom_[A-Za-z0-9_]*\([^)]*\)\s*:", body):
+            return True
+    return False
